@@ -1,6 +1,8 @@
 import PvlModel.Model.Spec
 import PvlModel.Lemmas.SpecCount
 import PvlModel.Lemmas.ParseSpec
+import PvlModel.Lemmas.ParserCount2
+import PvlModel.Gen.Tables
 
 /-!
 # C05 — ill-formed text is rejected, never silently truncated
@@ -120,5 +122,143 @@ theorem C05_no_silent_truncation (g : Grammar) (d : Dec) (kind : ParserKind) (pr
   have hs := parse_spec_total g d kind prior text
   rw [h] at hs
   exact hs
+
+
+open Py P
+
+/-- the outcome and the final parser state of `parse()` (what `parseWith` computes before it projects) -/
+def parseRun (g : Grammar) (d : Dec) (kind : ParserKind) (s : Str) : Except PErr Items × PSt :=
+  let doc := if kind == .omni then omniPrepass s else s
+  let (toks, tail) := lexAll g d doc
+  let c : PCfg := ⟨g, d, kind, doc, tail⟩
+  (P.moduleLoop c [] (fuelFor (toks.length + 2))).run.run ⟨⟨toks, none, none, false⟩, [], [], none, false⟩
+
+theorem parseWith_outcome (g : Grammar) (d : Dec) (kind : ParserKind) (prior : List Int) (s : Str) :
+    (parseWith g d kind prior s).outcome = (parseRun g d kind s).1 := by
+  unfold parseWith parseRun
+  rfl
+
+/-- the parser configuration of a `parse()` call of a strict parser class -/
+def cfgOf (g : Grammar) (d : Dec) (kind : ParserKind) (s : Str) : PCfg := ⟨g, d, kind, s, (lexAll g d s).2⟩
+
+/-- **C05, block keywords are accounted for** (strict parser classes `PVLParser`, `ODLParser`): whenever
+    `parse()` returns a module, the begin keywords among the tokens it consumed, and the end keywords among
+    them, are each exactly as many as the blocks in the module — at every nesting depth.  No block is closed
+    by the end of the text or by the END statement, no block keyword is skipped, nothing that opened a block is
+    dropped from the result.  Hypotheses: the token stream is sane (a block keyword is not also white space,
+    a delimiter, a value, units, a parameter name or END — evaluated on every input of the correspondence
+    run), the punctuation is not a keyword and every begin keyword has a container class (`CfgOK`, `hcls`:
+    facts about the grammar table, evaluated on the generated tables below). -/
+theorem C05_blocks_accounted (g : Grammar) (d : Dec) (kind : ParserKind) (text : Str) (hk : kind ≠ .omni)
+    (hc : CfgOK (cfgOf g d kind text))
+    (hcls : ∀ b, isBt (cfgOf g d kind text) b = true → aggregationCls g b ≠ none)
+    (hs : ∀ t ∈ (lexAll g d text).1, Sane (cfgOf g d kind text) t.text)
+    (m : Items) (h : (parseRun g d kind text).1 = .ok m) :
+    cntG (isBt (cfgOf g d kind text)) (parseRun g d kind text).2.gen + blocksI m =
+      ((lexAll g d text).1.filter (fun t => isBt (cfgOf g d kind text) t.text)).length ∧
+    cntG (isEt (cfgOf g d kind text)) (parseRun g d kind text).2.gen + blocksI m =
+      ((lexAll g d text).1.filter (fun t => isEt (cfgOf g d kind text) t.text)).length := by
+  have hko : (kind == ParserKind.omni) = false := by
+    cases kind <;> simp_all
+  revert h hc hcls hs
+  unfold parseRun cfgOf
+  simp only [hko, Bool.false_eq_true, if_false]
+  generalize lexAll g d text = lx
+  obtain ⟨toks, tail⟩ := lx
+  simp only
+  intro hc hcls hs
+  have hs0 := triple_elim _ _ _ _
+    (moduleLoop_ct ⟨g, d, kind, text, tail⟩ hc hk hcls (fuelFor (toks.length + 2)) []
+      (K ⟨g, d, kind, text, tail⟩ ⟨⟨toks, none, none, false⟩, [], [], none, false⟩))
+    ⟨⟨toks, none, none, false⟩, [], [], none, false⟩
+    (by
+      refine ⟨by simp [P.Inv], ?_⟩
+      simp only [Same, K, TS]
+      exact ⟨trivial, trivial, hs, by simp⟩)
+  revert hs0
+  generalize (moduleLoop ⟨g, d, kind, text, tail⟩ [] (fuelFor (toks.length + 2))).run.run
+    ⟨⟨toks, none, none, false⟩, [], [], none, false⟩ = res
+  obtain ⟨r, st'⟩ := res
+  intro hs0 h
+  simp only at h
+  subst h
+  obtain ⟨⟨h1, h2, _⟩, _⟩ := hs0
+  simp only [K, Bc, Ec, cntG, blocksI_nil, Nat.add_zero] at h1 h2
+  simp only [Bc, Ec] at h1 h2 ⊢
+  constructor
+  · simpa [cntG] using h1
+  · simpa [cntG] using h2
+
+
+/-- `CfgOK` and the class hypothesis as a computation on the grammar table -/
+def cfgOKb (g : Grammar) : Bool :=
+  let kw (x : Str) : Bool := Tok.isBeginAggregation g x || g.aggKeywords.any (fun p => foldEq x p.2)
+  !kw [61] && !kw [44] && !kw [g.setDelims.1] && !kw [g.setDelims.2] && !kw [g.seqDelims.1] && !kw [g.seqDelims.2] &&
+  g.aggKeywords.all (fun p => g.groupKeywords.any (fun q => q.1 == p.1) || g.objectKeywords.any (fun q => q.1 == p.1))
+
+theorem cfgOK_of_table (c : PCfg) (h : cfgOKb c.g = true) :
+    CfgOK c ∧ ∀ b, isBt c b = true → aggregationCls c.g b ≠ none := by
+  simp only [cfgOKb, Bool.and_eq_true, Bool.not_eq_true', Bool.or_eq_false_iff] at h
+  obtain ⟨⟨⟨⟨⟨⟨h1, h2⟩, h3⟩, h4⟩, h5⟩, h6⟩, h7⟩ := h
+  refine ⟨⟨⟨h1.1, h1.2⟩, ⟨h2.1, h2.2⟩, ⟨h3.1, h3.2⟩, ⟨h4.1, h4.2⟩, ⟨h5.1, h5.2⟩, ⟨h6.1, h6.2⟩⟩, ?_⟩
+  intro b hb
+  simp only [isBt, Tok.isBeginAggregation, List.any_eq_true] at hb
+  obtain ⟨p, hp, hpb⟩ := hb
+  have := (List.all_eq_true.mp h7) p hp
+  simp only [Bool.or_eq_true, List.any_eq_true, beq_iff_eq] at this
+  unfold aggregationCls
+  rcases this with ⟨q, hq, hqe⟩ | ⟨q, hq, hqe⟩
+  · have : c.g.groupKeywords.any (fun p => foldEq b p.1) = true :=
+      List.any_eq_true.mpr ⟨q, hq, by rw [hqe]; exact hpb⟩
+    simp [this]
+  · by_cases hg : c.g.groupKeywords.any (fun p => foldEq b p.1) = true
+    · simp [hg]
+    · have : c.g.objectKeywords.any (fun p => foldEq b p.1) = true :=
+        List.any_eq_true.mpr ⟨q, hq, by rw [hqe]; exact hpb⟩
+      simp [hg, this]
+
+/-- the four strict-dialect tables satisfy both -/
+theorem cfgOK_tables : ∀ g ∈ [Gen.pvl, Gen.odl, Gen.pds, Gen.isis, Gen.omni], cfgOKb g = true := by
+  decide +kernel
+
+/-- **C05, an unbalanced label is never accepted**: if a strict parser returns a module having consumed every
+    token, the text holds as many begin keywords as end keywords (and as many as the module has blocks); so a
+    text whose block keywords do not pair up is rejected or not read to its end -/
+theorem C05_unbalanced_rejected (g : Grammar) (d : Dec) (kind : ParserKind) (text : Str) (hk : kind ≠ .omni)
+    (hg : cfgOKb g = true) (hs : ∀ t ∈ (lexAll g d text).1, Sane (cfgOf g d kind text) t.text)
+    (m : Items) (h : (parseRun g d kind text).1 = .ok m)
+    (hall : (parseRun g d kind text).2.gen.pending = [] ∧ (parseRun g d kind text).2.gen.pushed = none) :
+    ((lexAll g d text).1.filter (fun t => isBt (cfgOf g d kind text) t.text)).length = blocksI m ∧
+    ((lexAll g d text).1.filter (fun t => isEt (cfgOf g d kind text) t.text)).length = blocksI m := by
+  obtain ⟨hc, hcls⟩ := cfgOK_of_table (cfgOf g d kind text) hg
+  obtain ⟨h1, h2⟩ := C05_blocks_accounted g d kind text hk hc hcls hs m h
+  simp only [cntG, hall.1, hall.2, List.filter_nil, List.length_nil, Nat.zero_add] at h1 h2
+  exact ⟨h1.symm, h2.symm⟩
+
+
+/-- the computed sanity check implies the hypothesis of the accounting theorem -/
+theorem saneText_sane (c : PCfg) (x : Str) (h : saneText c.g c.d x = true) : Sane c x := by
+  simp only [saneText, Bool.and_eq_true, Bool.not_eq_true', Bool.or_eq_true, Bool.and_eq_false_imp] at h
+  obtain ⟨h1, h2⟩ := h
+  refine ⟨fun hb => h1 hb, fun hkw => ?_⟩
+  have hkw' : (Tok.isBeginAggregation c.g x || c.g.aggKeywords.any (fun p => foldEq x p.2)) = true := by
+    rcases hkw with h | h
+    · simp [isBt] at h; simp [h]
+    · simp [isEt] at h; simp [h]
+  rcases h2 with h2 | h2
+  · rw [hkw'] at h2; cases h2
+  · obtain ⟨⟨⟨⟨⟨a, b⟩, cc⟩, dd⟩, e⟩, f⟩ := h2
+    refine ⟨a, b, ?_, dd, e, f⟩
+    intro v hv
+    rw [hv] at cc
+    cases cc
+
+theorem saneToks_sane (g : Grammar) (d : Dec) (kind : ParserKind) (text : Str)
+    (h : saneToks g d (lexAll g d text).1 = true) : ∀ t ∈ (lexAll g d text).1, Sane (cfgOf g d kind text) t.text := by
+  intro t ht
+  exact saneText_sane (cfgOf g d kind text) t.text ((List.all_eq_true.mp h) t ht)
+
+/-- an ordinary token is sane (the condition only constrains block keywords) -/
+example : saneText Gen.pvl ⟨Gen.pvl, .pvl⟩ [97] = true := by decide +kernel
 
 end Pvl
